@@ -51,6 +51,7 @@ type stScen struct {
 	Nsamp    int      `json:"nsamp"`
 	Signed   bool     `json:"signed"`
 	PeriodNs int      `json:"period"`
+	RateHz   float64  `json:"ratehz"` // if set: the sample rate; the period is then the rounded 1e9/rate, as every source sets it
 	Frame0   int64    `json:"frame0"`
 	Start    string   `json:"start"` // fresh | restored
 	Trig     []stTrig `json:"trig"`  // per channel; used at start (restored) or by the first trig step
@@ -89,6 +90,10 @@ func stPairs(g GroupTriggerState) [][]int {
 // position of the first one (control steps other than the initial ones are not allowed in that mode).
 func stRunOnce(id int, sc *stScen, run string, oneBlock bool) {
 	rate := 1e9 / float64(sc.PeriodNs)
+	if sc.RateHz > 0 {
+		rate = sc.RateHz
+		sc.PeriodNs = roundint(1e9 / rate)
+	}
 	viper.Set("trigger", nil)
 	if sc.Start == "restored" {
 		fts := []FullTriggerState{}
